@@ -366,7 +366,7 @@ func toABCI(as []attr) []abci.EventAttribute {
 
 func genHexReceiver(r *Rng) string {
 	a := genAddr(r)
-	switch r.Intn(12) {
+	switch r.Intn(24) {
 	case 0:
 		return addrHex(a) // no prefix
 	case 1:
@@ -391,7 +391,7 @@ func genHexReceiver(r *Rng) string {
 }
 
 func genSeqText(r *Rng) string {
-	switch r.Intn(14) {
+	switch r.Intn(28) {
 	case 0:
 		return []string{"", "+", "-", "12a", "1_0", "0x10", " 1", "1 ", "１", "1e3", "1.0"}[r.Intn(11)]
 	case 1:
@@ -410,7 +410,7 @@ func genSeqText(r *Rng) string {
 }
 
 func genAmountText(r *Rng) string {
-	switch r.Intn(16) {
+	switch r.Intn(28) {
 	case 0:
 		return []string{"", "+", "-", "0x", "0b", "0o", "_1", "1_", "1__0", "0_", "08", "0x_", "12a", "0b102", "0xg", " 1", "1e3", "0.5", "0x1__2", "0_8"}[r.Intn(20)]
 	case 1:
